@@ -185,6 +185,8 @@ def cases(tier, seed):
     out = [dict(i=i, seed=seed, type="wide") for i in range(nw)]
     out += [dict(i=nw + j, seed=seed, type="active") for j in range(N[tier] - nw)]
     out += [dict(i=N[tier] + k, seed=seed, type="regression", cfg=c) for k, c in enumerate(REGRESSION)]
+    base = N[tier] + len(REGRESSION)
+    out += [dict(i=base + k, seed=seed, type="enum") for k in range(NENUM[tier])]
     return out
 
 
@@ -193,7 +195,69 @@ def setup():
     engine.install_log_tap()
 
 
+NENUM = {"quick": 84, "thorough": 1500}
+ENUM_FAMILIES = ["growing", "averaging", "growing", "scaled", "growing", "soft_inc_npt", "growing", "regression", "growing", "reg", "growing", "plain"]
+
+
+def make_enum_cfg(seed, i):
+    """Reference configuration for the termination enumeration: an active-bound problem of a family whose points are generated
+    next to the bounds, small enough that ending the run at every call is affordable; growing sets add directions every iteration."""
+    fam = ENUM_FAMILIES[i % len(ENUM_FAMILIES)]
+    j = FAMILIES.index(fam) + len(FAMILIES) * (7 * i + 3)     # make_active_cfg picks the family from its index
+    cfg = make_active_cfg(seed, j)
+    g = np.random.default_rng([int(seed), NUM, int(i), 6])
+    cfg["args"]["maxfun"] = int(gen.pick(g, [25, 40]))
+    cfg["prob"]["trap"] = False
+    up = cfg["user_params"]
+    if fam == "growing":
+        up["growing.num_new_dirns_each_iter"] = int(gen.pick(g, [1, 1, 2]))
+        if g.random() < 0.5 and not cfg["prob"].get("noise"):
+            cfg["nsamples"] = dict(kind="const", v=int(g.integers(2, 4)))
+    cfg.pop("failpoint", None)
+    cfg["_family"] = "enum-" + fam
+    return cfg
+
+
+def run_enum(case):
+    """End the run at every budget 1..nf and at every evaluation that sets a new minimum (exit inside initialisation, growing
+    steps, geometry / regression steps, restarts): the box test on every call and on soln.x, which at such exits comes from the
+    saved-point path instead of the model."""
+    cfg = make_enum_cfg(case["seed"], case["i"])
+    case["cfg"] = cfg
+    ref = gen.run_cfg(cfg, timeout=CASE_TIMEOUT["quick"])
+    b = ref.built
+    st = oracles.common_stats(ref)
+    viol, n_on = oracles.box_violations(ref, b.lo, b.hi)
+    res = dict(stats=st, viol=viol, nontrivial=[], inconclusive=[])
+    st["family|" + cfg["_family"]] = 1
+    if ref.exc is not None or ref.timeout or ref.livelock:
+        return res
+    h = b.h_raw if b.h is not None else None
+    ders = campaign.exit_index_cfgs(cfg, ref, h=h, max_cases=16) + campaign.budget_index_cfgs(cfg, ref, max_cases=24)
+    for c2 in ders:
+        run = gen.run_cfg(c2, timeout=CASE_TIMEOUT["quick"])
+        oracles.common_stats(run, st)
+        v2, on2 = oracles.box_violations(run, run.built.lo, run.built.hi)
+        n_on += on2
+        st["enum_derived_runs"] = st.get("enum_derived_runs", 0) + 1
+        fe = oracles.final_exit(run)
+        if fe:
+            st["enum_exit_site|%s" % fe[2]] = st.get("enum_exit_site|%s" % fe[2], 0) + 1
+        for v in v2:
+            v["msg"] = "[%s %s] %s" % (c2["_derived"]["kind"], c2["_derived"].get("M", c2["_derived"].get("j")), v["msg"])
+            v["witness"]["derived"] = c2["_derived"]
+        if v2 and len(res["viol"]) < 6:
+            res["viol"].extend(v2[:2])
+            case["cfg"] = c2
+    st["coords_exactly_on_a_bound"] = n_on
+    if n_on > 0:
+        res["nontrivial"].append(oracles.cfg_hash(cfg))
+    return res
+
+
 def run_case(case):
+    if case.get("type") == "enum":
+        return run_enum(case)
     cfg = case.get("cfg") or (make_cfg(case["seed"], case["i"]) if case.get("type", "wide") == "wide"
                               else make_active_cfg(case["seed"], case["i"]))
     case["cfg"] = cfg
